@@ -1190,3 +1190,670 @@ Qed.
 
 Example sort_coo_scan_example : sort_coo_scan [0; 0; 2; 2; 2; 5] = Done [(0, 2); (2, 5); (5, 6)].
 Proof. reflexivity. Qed.
+
+(* ================================================================= GCXS product kernels *)
+Lemma nth_set_nth_eq {A} (n : nat) (l : list A) v d : (n < length l)%nat -> nth n (set_nth n l v) d = v.
+Proof. revert n; induction l as [|x r IH]; intros [|n] H; cbn in *; try lia; [reflexivity|apply IH; lia]. Qed.
+
+Lemma nth_set_nth_neq {A} (n m : nat) (l : list A) v d : n <> m -> nth m (set_nth n l v) d = nth m l d.
+Proof.
+  revert n m; induction l as [|x r IH]; intros [|n] [|m] H; cbn; try reflexivity; try lia. apply IH. lia.
+Qed.
+
+Lemma zlen_set_nth {A} n (l : list A) v : zlen (set_nth n l v) = zlen l.
+Proof. unfold zlen. rewrite set_nth_length. reflexivity. Qed.
+
+Lemma wr_znth {A} (l : list A) k v : 0 <= k < zlen l -> wr l k v = Done (set_nth (Z.to_nat k) l v).
+Proof. intros H. unfold wr. destruct (upd_ok l k (fun _ => Done v) H) as [x [_ ->]]. reflexivity. Qed.
+
+Lemma znth_set_eq l k v : 0 <= k < zlen l -> znth (set_nth (Z.to_nat k) l v) k = v.
+Proof. intros H. unfold znth. apply nth_set_nth_eq. unfold zlen in H. lia. Qed.
+
+Lemma znth_set_neq l k v j : 0 <= k -> 0 <= j -> j <> k -> znth (set_nth (Z.to_nat k) l v) j = znth l j.
+Proof. intros Hk Hj Hne. unfold znth. apply nth_set_nth_neq. lia. Qed.
+
+Lemma In_firstn {A} (x : A) n l : In x (firstn n l) -> In x l.
+Proof. revert l; induction n as [|n IH]; intros [|y l]; cbn; try tauto. intros [->|H]; [left; reflexivity|right; apply IH; assumption]. Qed.
+
+Lemma In_skipn {A} (x : A) n l : In x (skipn n l) -> In x l.
+Proof. revert l; induction n as [|n IH]; intros [|y l]; cbn; try tauto. intros H. right. apply IH. assumption. Qed.
+
+Lemma In_slice {A} (x : A) l lo hi : In x (slice l lo hi) -> In x l.
+Proof. unfold slice. intros H. apply In_firstn in H. apply In_skipn in H. exact H. Qed.
+
+Lemma In_zip_fst {A B} (x : A) (y : B) l1 l2 : In (x, y) (zip l1 l2) -> In x l1.
+Proof. apply in_combine_l. Qed.
+
+Lemma nth_repeat_nat (v : Z) n m : (m < n)%nat -> nth m (repeat v n) 0 = v.
+Proof. revert m; induction n as [|n IH]; intros [|m] H; cbn; try lia; try reflexivity. apply IH. lia. Qed.
+
+Lemma znth_repeat v n x : 0 <= x < Z.of_nat n -> znth (repeat v n) x = v.
+Proof. intros H. unfold znth. apply nth_repeat_nat. lia. Qed.
+
+(* ---- the mask counter alone *)
+Lemma mask_count_ok ks : forall i mask cnt,
+  Forall (fun k => 0 <= k < zlen mask) ks ->
+  exists mask' cnt', mask_count ks i mask cnt = Done (mask', cnt') /\ zlen mask' = zlen mask /\ cnt <= cnt'.
+Proof.
+  induction ks as [|k ks IH]; intros i mask cnt Hk; cbn [mask_count].
+  - exists mask, cnt. repeat split; lia.
+  - inversion Hk as [|? ? Hk0 Hks]; subst. rewrite (rd_znth mask k Hk0). cbn [kbind].
+    destruct (znth mask k =? i).
+    + apply IH. assumption.
+    + rewrite (wr_znth mask k i Hk0). cbn [kbind].
+      destruct (IH i (set_nth (Z.to_nat k) mask i) (cnt + 1)) as [m' [c' [E [L C]]]].
+      { rewrite zlen_set_nth. assumption. }
+      exists m', c'. rewrite zlen_set_nth in L. repeat split; [assumption|assumption|lia].
+Qed.
+
+(* ---- linked list through nx: head -> nx[head] -> ... -> -2 *)
+Fixpoint chain (nx : list Z) (head : Z) (l : list Z) : Prop :=
+  match l with
+  | [] => head = -2
+  | x :: r => head = x /\ chain nx (znth nx x) r
+  end.
+
+Lemma chain_set nx k v : forall l head, 0 <= k -> Forall (fun x => 0 <= x) l -> ~ In k l ->
+  chain nx head l -> chain (set_nth (Z.to_nat k) nx v) head l.
+Proof.
+  induction l as [|x r IH]; intros head Hk Hp Hn Hc; cbn in *; [assumption|].
+  destruct Hc as [-> Hc]. split; [reflexivity|]. inversion Hp; subst.
+  rewrite znth_set_neq by (try lia; intros ->; apply Hn; left; reflexivity).
+  apply IH; try assumption. intros Hin. apply Hn. right. assumption.
+Qed.
+
+Section LinkedList.
+  Variable n : Z.       (* number of columns: length of mask / next_ / sums *)
+  Variable i : Z.       (* current row id *)
+
+  Definition ll_inv (mask nx : list Z) (head : Z) (l : list Z) : Prop :=
+    zlen mask = n /\ zlen nx = n /\ NoDup l /\ Forall (fun x => 0 <= x < n) l /\
+    (forall x, 0 <= x < n -> (znth nx x <> -1 <-> In x l)) /\
+    (forall x, 0 <= x < n -> (znth mask x = i <-> In x l)) /\
+    chain nx head l.
+
+  (* the count kernel's mask pass and the fill kernel's insertion pass, side by side, on the same
+     sequence of columns: they increment together *)
+  Lemma lockstep ps : forall mask nx sums head l cnt len,
+    Forall (fun p => 0 <= fst p < n) ps -> ll_inv mask nx head l -> zlen sums = n -> head <> -1 ->
+    exists mask' cnt' nx' sums' head' l',
+      mask_count (map fst ps) i mask cnt = Done (mask', cnt') /\
+      ll_insert ps nx sums head len = Done (nx', sums', head', len + (cnt' - cnt)) /\
+      ll_inv mask' nx' head' l' /\ zlen sums' = n /\ head' <> -1 /\
+      zlen l' = zlen l + (cnt' - cnt) /\ 0 <= cnt' - cnt /\
+      (forall x, 0 <= x < n -> znth mask' x = i \/ znth mask' x = znth mask x).
+  Proof.
+    induction ps as [|[k v] ps IH]; intros mask nx sums head l cnt len Hps Hinv Hs Hh; cbn [map fst mask_count ll_insert].
+    - exists mask, cnt, nx, sums, head, l. replace (len + (cnt - cnt)) with len by lia.
+      split; [reflexivity|]. split; [reflexivity|]. split; [exact Hinv|]. split; [assumption|]. split; [assumption|].
+      split; [lia|]. split; [lia|]. intros; right; reflexivity.
+    - inversion Hps as [|? ? Hk Hps']; subst. cbn [fst] in Hk.
+      destruct Hinv as [Lm [Ln [Nd [Rg [Hnx [Hmk Hch]]]]]].
+      rewrite (rd_znth mask k) by lia. cbn [kbind].
+      rewrite (rd_znth sums k) by lia. cbn [kbind].
+      rewrite (wr_znth sums k) by lia. cbn [kbind].
+      rewrite (rd_znth nx k) by lia. cbn [kbind].
+      set (sums1 := set_nth (Z.to_nat k) sums (znth sums k + v)).
+      assert (Ls1 : zlen sums1 = n) by (unfold sums1; rewrite zlen_set_nth; assumption).
+      destruct (Z.eqb_spec (znth mask k) i) as [Em|Em].
+      + (* already on the list *)
+        assert (Hin : In k l) by (apply Hmk; [lia|assumption]).
+        assert (Hx : znth nx k <> -1) by (apply Hnx; [lia|assumption]).
+        destruct (Z.eqb_spec (znth nx k) (-1)); [contradiction|].
+        apply IH; try assumption. exact (conj Lm (conj Ln (conj Nd (conj Rg (conj Hnx (conj Hmk Hch)))))).
+      + assert (Hnin : ~ In k l) by (intros Hin; apply Em; apply Hmk; [lia|assumption]).
+        assert (Hx : znth nx k = -1).
+        { destruct (Z.eq_dec (znth nx k) (-1)); [assumption|]. exfalso. apply Hnin. apply Hnx; [lia|assumption]. }
+        rewrite Hx. cbn [Z.eqb]. change (-1 =? -1) with true. cbn iota.
+        rewrite (wr_znth mask k) by lia. rewrite (wr_znth nx k) by lia. cbn [kbind].
+        set (mask1 := set_nth (Z.to_nat k) mask i). set (nx1 := set_nth (Z.to_nat k) nx head).
+        assert (Hinv1 : ll_inv mask1 nx1 k (k :: l)).
+        { unfold ll_inv, mask1, nx1. rewrite !zlen_set_nth.
+          refine (conj Lm (conj Ln (conj _ (conj _ (conj _ (conj _ _)))))).
+          - constructor; assumption.
+          - constructor; [lia|assumption].
+          - intros x Hxr. split.
+            + intros Hne. destruct (Z.eq_dec x k) as [->|Hd]; [left; reflexivity|].
+              right. apply Hnx; [assumption|]. rewrite znth_set_neq in Hne by lia. assumption.
+            + intros [<-|Hin]; [rewrite znth_set_eq by lia; assumption|].
+              destruct (Z.eq_dec x k) as [->|Hd]; [contradiction|]. rewrite znth_set_neq by lia. apply Hnx; assumption.
+          - intros x Hxr. split.
+            + intros He. destruct (Z.eq_dec x k) as [->|Hd]; [left; reflexivity|].
+              right. apply Hmk; [assumption|]. rewrite znth_set_neq in He by lia. assumption.
+            + intros [<-|Hin]; [rewrite znth_set_eq by lia; reflexivity|].
+              destruct (Z.eq_dec x k) as [->|Hd]; [contradiction|]. rewrite znth_set_neq by lia. apply Hmk; assumption.
+          - cbn [chain]. split; [reflexivity|]. rewrite znth_set_eq by lia.
+            apply chain_set; try assumption; [lia|]. eapply Forall_impl; [|exact Rg]. cbn. intros; lia. }
+        destruct (IH mask1 nx1 sums1 k (k :: l) (cnt + 1) (len + 1) Hps' Hinv1 Ls1 ltac:(lia))
+          as [m' [c' [nx' [s' [h' [l' [E1 [E2 [I' [Ls' [Hh' [Ll [Hc Hm]]]]]]]]]]]]].
+        exists m', c', nx', s', h', l'. rewrite E1.
+        replace (len + (c' - cnt)) with (len + 1 + (c' - (cnt + 1))) by lia. rewrite E2.
+        split; [reflexivity|]. split; [reflexivity|]. split; [exact I'|]. split; [assumption|]. split; [assumption|].
+        split; [rewrite Ll, zlen_cons; lia|]. split; [lia|].
+        { intros x Hxr. destruct (Hm x Hxr) as [H1|H1]; [left; assumption|].
+          unfold mask1 in H1. destruct (Z.eq_dec x k) as [->|Hd].
+          -- rewrite znth_set_eq in H1 by lia. left; assumption.
+          -- rewrite znth_set_neq in H1 by lia. right; assumption. }
+  Qed.
+
+  (* draining the list: exactly |l| writes into indices / data, and next_ is clean afterwards *)
+  Lemma drain_ok guarded l : forall head nx sums indices data nnz,
+    chain nx head l -> NoDup l -> Forall (fun x => 0 <= x < n) l -> (forall x, In x l -> znth nx x <> -1) ->
+    zlen nx = n -> zlen sums = n -> zlen data = zlen indices -> 0 <= nnz -> nnz + zlen l <= zlen indices ->
+    exists nx' sums' indices' data',
+      ll_drain guarded (length l) head nx sums indices data nnz = Done (nx', sums', indices', data', nnz + zlen l) /\
+      zlen nx' = n /\ zlen sums' = n /\ zlen indices' = zlen indices /\ zlen data' = zlen indices /\
+      (forall x, 0 <= x < n -> znth nx' x = if in_dec Z.eq_dec x l then -1 else znth nx x).
+  Proof.
+    induction l as [|x r IH]; intros head nx sums indices data nnz Hc Nd Rg Hne Ln Ls Ld Hn Hb; cbn [length ll_drain].
+    - exists nx, sums, indices, data. replace (nnz + zlen (@nil Z)) with nnz by (unfold zlen; cbn; lia).
+      repeat split; try assumption; try lia.
+    - cbn [chain] in Hc. destruct Hc as [-> Hc]. apply NoDup_cons_iff in Nd. destruct Nd as [Hnin Nd']. pose proof (Forall_inv Rg) as Hx. pose proof (Forall_inv_tail Rg) as Rg'. cbn beta in Hx.
+      rewrite zlen_cons in Hb.
+      rewrite (rd_znth nx x) by lia. cbn [kbind].
+      assert (Hxne : znth nx x <> -1) by (apply Hne; left; reflexivity).
+      destruct (Z.eqb_spec (znth nx x) (-1)); [contradiction|]. cbn [negb]. rewrite orb_true_r.
+      pose proof (zlen_nonneg r).
+      rewrite (wr_znth indices nnz) by lia. cbn [kbind].
+      rewrite (rd_znth sums x) by lia. cbn [kbind].
+      rewrite (wr_znth data nnz) by lia. cbn [kbind].
+      rewrite (wr_znth nx x) by lia. cbn [kbind]. rewrite (wr_znth sums x) by lia. cbn [kbind].
+      assert (P1 : chain (set_nth (Z.to_nat x) nx (-1)) (znth nx x) r).
+      { apply chain_set; try assumption; [lia|]. eapply Forall_impl; [|exact Rg']. cbn; intros; lia. }
+      assert (P2 : forall y, In y r -> znth (set_nth (Z.to_nat x) nx (-1)) y <> -1).
+      { intros y Hy. assert (0 <= y < n) by (rewrite Forall_forall in Rg'; apply Rg'; assumption).
+        rewrite znth_set_neq; [apply Hne; right; assumption|lia|lia|]. intros ->. contradiction. }
+      destruct (IH (znth nx x) (set_nth (Z.to_nat x) nx (-1)) (set_nth (Z.to_nat x) sums 0)
+                   (set_nth (Z.to_nat nnz) indices x) (set_nth (Z.to_nat nnz) data (znth sums x)) (nnz + 1)
+                   P1 Nd' Rg' P2 ltac:(rewrite zlen_set_nth; assumption) ltac:(rewrite zlen_set_nth; assumption)
+                   ltac:(rewrite !zlen_set_nth; assumption) ltac:(lia) ltac:(rewrite zlen_set_nth; lia))
+        as [nx' [s' [i' [d' [E [L1 [L2 [L3 [L4 Hv]]]]]]]]].
+      { exists nx', s', i', d'. rewrite zlen_cons. replace (nnz + (zlen r + 1)) with (nnz + 1 + zlen r) by lia. rewrite E.
+        rewrite !zlen_set_nth in *.
+        split; [reflexivity|]. split; [assumption|]. split; [assumption|]. split; [assumption|]. split; [assumption|].
+        intros y Hy. rewrite (Hv y Hy).
+        destruct (in_dec Z.eq_dec y r) as [Hi|Hi]; destruct (in_dec Z.eq_dec y (x :: r)) as [Hj|Hj]; try reflexivity.
+        * exfalso. apply Hj. right. assumption.
+        * destruct Hj as [<-|Hj]; [|contradiction]. rewrite znth_set_eq by lia. reflexivity.
+        * rewrite znth_set_neq; [reflexivity|lia|lia|]. intros ->. apply Hj. left. reflexivity. }
+  Qed.
+End LinkedList.
+
+(* ---- iteration spaces *)
+Lemma map_fst_zip {A B} (l1 : list A) (l2 : list B) : length l1 = length l2 -> map fst (zip l1 l2) = l1.
+Proof.
+  revert l2; induction l1 as [|x r IH]; intros [|y s] H; cbn in *; try discriminate; [reflexivity|].
+  f_equal. apply IH. lia.
+Qed.
+
+Lemma slice_length {A} (l : list A) lo hi :
+  length (slice l lo hi) = Nat.min (Z.to_nat (hi - lo)) (length l - Z.to_nat lo).
+Proof. unfold slice. rewrite firstn_length, skipn_length. reflexivity. Qed.
+
+Lemma map_fst_zip_slice (l d : list Z) lo hi : zlen d = zlen l -> map fst (zip (slice l lo hi) (slice d lo hi)) = slice l lo hi.
+Proof. intros H. apply map_fst_zip. rewrite !slice_length. unfold zlen in H. lia. Qed.
+
+Lemma Forall_slice {A} (P : A -> Prop) l lo hi : Forall P l -> Forall P (slice l lo hi).
+Proof. intros H. apply Forall_forall. intros x Hx. rewrite Forall_forall in H. apply H. eapply In_slice; eassumption. Qed.
+
+Lemma sort_pairs_length l : length (sort_pairs l) = length l.
+Proof.
+  unfold sort_pairs. induction l as [|p l IH]; cbn; [reflexivity|]. rewrite <- IH.
+  generalize (fold_right ins_pair [] l) as s. clear. intros s. induction s as [|q s IH]; cbn; [reflexivity|].
+  destruct (fst p <=? fst q); cbn; [reflexivity|]. rewrite IH. reflexivity.
+Qed.
+
+Lemma set_slice_length {A} (l : list A) lo (vals : list A) :
+  (Z.to_nat lo + length vals <= length l)%nat \/ (length l <= Z.to_nat lo /\ vals = [])%nat ->
+  length (set_slice l lo vals) = length l.
+Proof.
+  unfold set_slice. rewrite !app_length, firstn_length, skipn_length. intros [H|[H ->]]; cbn; lia.
+Qed.
+
+Lemma sort_segment_length indices data lo hi :
+  zlen data = zlen indices ->
+  zlen (fst (sort_segment indices data lo hi)) = zlen indices /\ zlen (snd (sort_segment indices data lo hi)) = zlen indices.
+Proof.
+  intros Hd. unfold sort_segment. cbn [fst snd]. unfold zlen in *.
+  assert (Hl : length (sort_pairs (zip (slice indices lo hi) (slice data lo hi))) = length (slice indices lo hi)).
+  { rewrite sort_pairs_length. unfold zip. rewrite combine_length, !slice_length. lia. }
+  rewrite !set_slice_length; rewrite ?map_length, ?Hl, ?slice_length; try lia.
+  - destruct (Nat.le_gt_cases (length data) (Z.to_nat lo)) as [H|H]; [right|left; lia].
+    split; [lia|]. assert (E : length (map snd (sort_pairs (zip (slice indices lo hi) (slice data lo hi)))) = 0%nat).
+    { rewrite map_length, Hl, slice_length. lia. }
+    destruct (map snd _); [reflexivity|discriminate].
+  - destruct (Nat.le_gt_cases (length indices) (Z.to_nat lo)) as [H|H]; [right|left; lia].
+    split; [lia|]. assert (E : length (map fst (sort_pairs (zip (slice indices lo hi) (slice data lo hi)))) = 0%nat).
+    { rewrite map_length, Hl, slice_length. lia. }
+    destruct (map fst _); [reflexivity|discriminate].
+Qed.
+
+
+Definition rows_from (a m : nat) : list Z := map Z.of_nat (seq a m).
+
+Lemma zrange_rows n : zrange n = rows_from 0 (Z.to_nat n).
+Proof. reflexivity. Qed.
+
+Definition mask_below (n : Z) (mask : list Z) (b : Z) : Prop := forall x, 0 <= x < n -> znth mask x < b.
+
+Section CsrCsrP.
+  Variables (a_indices a_data a_indptr b_indices b_data b_indptr : list Z) (n_row n_col K : Z).
+  Hypothesis Hrow : 0 <= n_row.
+  Hypothesis Hcol : 0 <= n_col.
+  Hypothesis Hap : zlen a_indptr = n_row + 1.
+  Hypothesis Hai : Forall (fun j => 0 <= j < K) a_indices.
+  Hypothesis Had : zlen a_data = zlen a_indices.
+  Hypothesis Hbp : zlen b_indptr = K + 1.
+  Hypothesis Hbi : Forall (fun k => 0 <= k < n_col) b_indices.
+  Hypothesis Hbd : zlen b_data = zlen b_indices.
+
+  Definition js_ks (js : list Z) : list Z :=
+    flat_map (fun j => slice b_indices (znth b_indptr j) (znth b_indptr (j + 1))) js.
+  Definition row_ks (i : Z) : list Z :=
+    js_ks (slice a_indices (znth a_indptr i) (znth a_indptr (i + 1))).
+
+  Lemma js_ks_range js : Forall (fun k => 0 <= k < n_col) (js_ks js).
+  Proof.
+    apply Forall_forall. intros x Hx. unfold js_ks in Hx. apply in_flat_map in Hx. destruct Hx as [j [_ Hx]].
+    rewrite Forall_forall in Hbi. apply Hbi. eapply In_slice; eassumption.
+  Qed.
+
+  Lemma csr_pairs_js_ok bd js :
+    zlen bd = zlen b_indices -> Forall (fun j => 0 <= j < K) (map fst js) ->
+    exists ps, csr_pairs_js b_indices bd b_indptr js = Done ps /\ map fst ps = js_ks (map fst js).
+  Proof.
+    intros Hd. induction js as [|[j av] js IH]; intros Hj; cbn [csr_pairs_js map fst].
+    - exists []. split; reflexivity.
+    - cbn [map fst] in Hj. pose proof (Forall_inv Hj) as Hj0. pose proof (Forall_inv_tail Hj) as Hj'. cbn beta in Hj0.
+      rewrite (rd_znth b_indptr j) by lia. cbn [kbind]. rewrite (rd_znth b_indptr (j + 1)) by lia. cbn [kbind].
+      destruct (IH Hj') as [ps [-> E]]. cbn [kbind]. eexists. split; [reflexivity|].
+      rewrite map_app, map_map. cbn [fst]. change (fun x : Z * Z => fst x) with (@fst Z Z).
+      rewrite (map_fst_zip_slice b_indices bd _ _ Hd), E. reflexivity.
+  Qed.
+
+  Lemma csr_row_pairs_ok ad bd i :
+    zlen ad = zlen a_indices -> zlen bd = zlen b_indices -> 0 <= i < n_row ->
+    exists ps, csr_row_pairs a_indices ad a_indptr b_indices bd b_indptr i = Done ps /\ map fst ps = row_ks i.
+  Proof.
+    intros Ha Hb Hi. unfold csr_row_pairs.
+    rewrite (rd_znth a_indptr i) by lia. cbn [kbind]. rewrite (rd_znth a_indptr (i + 1)) by lia. cbn [kbind].
+    destruct (csr_pairs_js_ok bd (zip (slice a_indices (znth a_indptr i) (znth a_indptr (i + 1)))
+                                      (slice ad (znth a_indptr i) (znth a_indptr (i + 1)))) Hb) as [ps [E1 E2]].
+    - rewrite (map_fst_zip_slice a_indices ad _ _ Ha). apply Forall_slice. assumption.
+    - exists ps. split; [assumption|]. rewrite E2, (map_fst_zip_slice a_indices ad _ _ Ha). reflexivity.
+  Qed.
+
+  (* the count kernel alone *)
+  Lemma ccn_rows_ok m : forall a mask cnt,
+    Z.of_nat (a + m) <= n_row -> zlen mask = n_col ->
+    exists total, ccn_rows a_indices a_indptr b_indices b_indptr (rows_from a m) mask cnt = Done total /\ cnt <= total.
+  Proof.
+    induction m as [|m IH]; intros a mask cnt Ha Hm; cbn [rows_from seq map ccn_rows].
+    - exists cnt. split; [reflexivity|lia].
+    - destruct (csr_row_pairs_ok a_indices b_indices (Z.of_nat a) eq_refl eq_refl ltac:(lia)) as [ps [-> Eks]]. cbn [kbind].
+      destruct (mask_count_ok (map fst ps) (Z.of_nat a) mask cnt) as [m' [c' [-> [L C]]]].
+      { rewrite Eks, Hm. apply js_ks_range. }
+      cbn [kbind]. destruct (IH (S a) m' c' ltac:(lia) ltac:(lia)) as [t [E Ht]].
+      exists t. split; [exact E|lia].
+  Qed.
+
+  Theorem csr_csr_count_nnz_safe_proof :
+    exists c, csr_csr_count_nnz a_indices a_indptr b_indices b_indptr n_row n_col = Done c /\ 0 <= c.
+  Proof.
+    unfold csr_csr_count_nnz. rewrite zrange_rows. apply ccn_rows_ok; [lia|].
+    unfold zlen. rewrite repeat_length. lia.
+  Qed.
+
+  (* the fill kernel next to the count kernel: every row writes exactly what the count kernel counted *)
+  Lemma dcc_rows_ok m : forall a mask cnt total nx sums indices data indptr nnz,
+    ccn_rows a_indices a_indptr b_indices b_indptr (rows_from a m) mask cnt = Done total ->
+    Z.of_nat (a + m) <= n_row -> zlen mask = n_col -> mask_below n_col mask (Z.of_nat a) ->
+    zlen nx = n_col -> zlen sums = n_col -> zlen data = zlen indices -> zlen indptr = n_row + 1 ->
+    0 <= nnz -> nnz + (total - cnt) <= zlen indices ->
+    exists r, dcc_rows a_indices a_data a_indptr b_indices b_data b_indptr (rows_from a m) nx sums indices data indptr nnz = Done r.
+  Proof.
+    induction m as [|m IH]; intros a mask cnt total nx sums indices data indptr nnz Hc Ha Lm Hb Ln Ls Ld Lp Hn Hbound;
+      cbn [rows_from seq map dcc_rows ccn_rows] in *.
+    - eexists; reflexivity.
+    - set (i := Z.of_nat a) in *.
+      destruct (csr_row_pairs_ok a_indices b_indices i eq_refl eq_refl ltac:(lia)) as [psc [Ec Eksc]].
+      rewrite Ec in Hc. cbn [kbind] in Hc.
+      destruct (csr_row_pairs_ok a_data b_data i Had Hbd ltac:(lia)) as [ps [-> Eks]]. cbn [kbind].
+      assert (Hrange : Forall (fun p : Z * Z => 0 <= fst p < n_col) ps).
+      { apply Forall_forall. intros p Hp. pose proof (js_ks_range (slice a_indices (znth a_indptr i) (znth a_indptr (i + 1)))) as R.
+        rewrite Forall_forall in R. apply R. fold (row_ks i). rewrite <- Eks. apply in_map. assumption. }
+      set (nx0 := repeat (-1) (length nx)).
+      assert (Linv : ll_inv n_col i mask nx0 (-2) []).
+      { unfold ll_inv, nx0. split; [assumption|]. split; [unfold zlen in *; rewrite repeat_length; assumption|].
+        split; [constructor|]. split; [constructor|]. split; [|split; [|reflexivity]].
+        - intros x Hx. rewrite znth_repeat by (unfold zlen in Ln; lia). cbn. tauto.
+        - intros x Hx. specialize (Hb x Hx). cbn. split; [lia|tauto]. }
+      destruct (lockstep n_col i ps mask nx0 sums (-2) [] cnt 0 Hrange Linv Ls ltac:(lia))
+        as [m' [c' [nx1 [s1 [h1 [l1 [E1 [E2 [I1 [Ls1 [_ [Ll [Hcc Hmk]]]]]]]]]]]]].
+      rewrite Eks, <- Eksc in E1. rewrite E1 in Hc. cbn [kbind] in Hc.
+      rewrite E2. cbn [kbind].
+      destruct I1 as [Lm1 [Ln1 [Nd1 [Rg1 [Hnx1 [Hmk1 Hch1]]]]]].
+      destruct (ccn_rows_ok m (S a) m' c' ltac:(lia) Lm1) as [t' [Et Htc]].
+      assert (t' = total) by (unfold rows_from in Et; congruence). subst t'.
+      replace (0 + (c' - cnt)) with (zlen l1) by (unfold zlen in *; cbn [length] in Ll; lia).
+      unfold zlen at 1. rewrite Nat2Z.id.
+      destruct (drain_ok n_col true l1 h1 nx1 s1 indices data nnz Hch1 Nd1 Rg1) as [nx2 [s2 [i2 [d2 [-> [Ln2 [Ls2 [Li2 [Ld2 _]]]]]]]]];
+        try assumption; try lia.
+      { intros x Hx. apply Hnx1; [|assumption]. rewrite Forall_forall in Rg1. apply Rg1. assumption. }
+      { unfold zlen in *. cbn [length] in Ll. lia. }
+      cbn [kbind]. rewrite (rd_znth indptr i) by lia. cbn [kbind].
+      pose proof (sort_segment_length i2 d2 (znth indptr i) (nnz + zlen l1) ltac:(lia)) as [S1 S2].
+      destruct (sort_segment i2 d2 (znth indptr i) (nnz + zlen l1)) as [i3 d3]. cbn [fst snd] in S1, S2.
+      rewrite (wr_znth indptr (i + 1)) by lia. cbn [kbind].
+      pose proof (zlen_nonneg l1).
+      apply (IH (S a) m' c' total); try assumption; try lia.
+      + intros x Hx. destruct (Hmk x Hx) as [H1|H1]; [lia|]. specialize (Hb x Hx). lia.
+      + rewrite zlen_set_nth. assumption.
+      + unfold zlen in *. cbn [length] in Ll. lia.
+  Qed.
+
+  Theorem dot_csr_csr_safe_proof :
+    exists r, dot_csr_csr a_indices a_data a_indptr b_indices b_data b_indptr n_row n_col = Done r.
+  Proof.
+    unfold dot_csr_csr, csr_csr_count_nnz. rewrite !zrange_rows.
+    destruct (ccn_rows_ok (Z.to_nat n_row) 0 (repeat (-1) (Z.to_nat n_col)) 0) as [cnt [Ec Hc]];
+      [lia|unfold zlen; rewrite repeat_length; lia|].
+    rewrite Ec. cbn [kbind].
+    assert (Lp : zlen (repeat 0 (Z.to_nat (n_row + 1))) = n_row + 1) by (unfold zlen; rewrite repeat_length; lia).
+    rewrite (wr_znth (repeat 0 (Z.to_nat (n_row + 1))) 0) by lia. cbn [kbind].
+    apply (dcc_rows_ok (Z.to_nat n_row) 0 (repeat (-1) (Z.to_nat n_col)) 0 cnt); try assumption; try lia;
+      try (unfold zlen; rewrite ?repeat_length; lia).
+    - intros x Hx. rewrite znth_repeat by lia. cbn. lia.
+    - rewrite zlen_set_nth. assumption.
+  Qed.
+End CsrCsrP.
+
+(* ---- column-compressed x dense *)
+Lemma nth_firstn_lt {A} (k m : nat) (l : list A) d : (k < m)%nat -> nth k (firstn m l) d = nth k l d.
+Proof.
+  revert k l; induction m as [|m IH]; intros k l H; [lia|].
+  destruct l as [|x l]; [destruct k; reflexivity|]. destruct k; cbn; [reflexivity|apply IH; lia].
+Qed.
+
+Lemma slice_map_znth (l : list Z) lo hi :
+  0 <= lo -> hi <= zlen l -> slice l lo hi = map (znth l) (zrange2 lo hi).
+Proof.
+  intros Hlo Hhi. apply (nth_ext _ _ 0 0).
+  - rewrite slice_length. unfold zrange2, zrange. rewrite !map_length, seq_length. unfold zlen in Hhi. lia.
+  - intros k Hk. rewrite slice_length in Hk.
+    assert (R : nth k (map (znth l) (zrange2 lo hi)) 0 = znth l (lo + Z.of_nat k)).
+    { unfold zrange2, zrange. rewrite map_map, map_map.
+      erewrite nth_indep; [rewrite (map_nth (fun x => znth l (lo + Z.of_nat x)) _ 0%nat k); rewrite seq_nth by lia; reflexivity|].
+      rewrite map_length, seq_length. lia. }
+    rewrite R. unfold slice. rewrite nth_firstn_lt by lia. rewrite nth_skipn_nat. unfold znth. f_equal. lia.
+Qed.
+
+Lemma gather2_ok a_indices a_data ks u :
+  zlen a_data = zlen a_indices -> Forall (fun k => 0 <= k < zlen a_indices) ks ->
+  exists ps, gather2 a_indices a_data ks u = Done ps /\ map fst ps = map (znth a_indices) ks.
+Proof.
+  intros Hd. induction ks as [|k ks IH]; intros Hk; cbn [gather2].
+  - exists []. split; reflexivity.
+  - pose proof (Forall_inv Hk) as Hk0. pose proof (Forall_inv_tail Hk) as Hk'. cbn beta in Hk0.
+    rewrite (rd_znth a_indices k) by lia. cbn [kbind]. rewrite (rd_znth a_data k) by lia. cbn [kbind].
+    destruct (IH Hk') as [ps [-> E]]. cbn [kbind]. eexists. split; [reflexivity|]. cbn [map fst]. rewrite E. reflexivity.
+Qed.
+
+Lemma zrange2_range lo hi x : In x (zrange2 lo hi) -> lo <= x < hi.
+Proof.
+  unfold zrange2. rewrite in_map_iff. intros [t [<- Ht]]. apply zrange_In in Ht. lia.
+Qed.
+
+Section CscNdarrayP.
+  Variables (a_indices a_data a_indptr : list Z) (b : list (list Z)) (a_rows bK bC : Z).
+  Hypothesis Hrows : 0 <= a_rows.
+  Hypothesis HbK : 0 <= bK.
+  Hypothesis HbC : 0 <= bC.
+  Hypothesis Hap : zlen a_indptr = bK + 1.
+  Hypothesis Hapr : Forall (fun p => 0 <= p <= zlen a_indices) a_indptr.
+  Hypothesis Hai : Forall (fun k => 0 <= k < a_rows) a_indices.
+  Hypothesis Had : zlen a_data = zlen a_indices.
+  Hypothesis Hb : mat_ok bK bC b.
+
+  Lemma ptr_range j : 0 <= j < bK + 1 -> 0 <= znth a_indptr j <= zlen a_indices.
+  Proof.
+    intros Hj. destruct (rd_ok a_indptr j ltac:(lia)) as [v [E Hn]]. rewrite (rd_znth a_indptr j) in E by lia.
+    inversion E; subst. exact (nth_error_Forall _ _ _ _ Hapr Hn).
+  Qed.
+
+  (* both kernels visit the same stored rows for output column i *)
+  Lemma csc_views_agree js i :
+    Forall (fun j => 0 <= j < bK) js -> 0 <= i < bC ->
+    exists ks ps, csc_count_ks a_indices a_indptr b js i = Done ks /\
+                  csc_fill_pairs a_indices a_data a_indptr b js i = Done ps /\
+                  map fst ps = ks /\ Forall (fun k => 0 <= k < a_rows) ks.
+  Proof.
+    intros Hjs Hi. induction Hjs as [|j js Hj Hjs IH]; cbn [csc_count_ks csc_fill_pairs].
+    - exists [], []. repeat split; constructor.
+    - destruct IH as [ks [ps [E1 [E2 [E3 R]]]]].
+      rewrite (rd_znth a_indptr j) by lia. cbn [kbind]. rewrite (rd_znth a_indptr (j + 1)) by lia. cbn [kbind].
+      pose proof (ptr_range j ltac:(lia)) as P0. pose proof (ptr_range (j + 1) ltac:(lia)) as P1.
+      destruct (rd2_ok bK bC b j i Hb Hj Hi) as [u Eu]. rewrite Eu. cbn [kbind]. rewrite E1, E2. cbn [kbind].
+      set (lo := znth a_indptr j) in *. set (hi := znth a_indptr (j + 1)) in *.
+      assert (Rs : Forall (fun k => 0 <= k < a_rows) (slice a_indices lo hi)) by (apply Forall_slice; assumption).
+      destruct (Z.eqb_spec u 0) as [->|Hu].
+      + (* b[j, i] = 0: nothing visited *)
+        cbn [kbind app]. destruct (zlen (slice a_indices lo hi) =? 0); cbn [kbind];
+          change (0 =? 0) with true; cbn iota; exists ks, ps; repeat split; assumption.
+      + destruct (gather2_ok a_indices a_data (zrange2 lo hi) u Had) as [here [Eh Fh]].
+        { apply Forall_forall. intros x Hx. apply zrange2_range in Hx. lia. }
+        rewrite Eh. cbn [kbind].
+        assert (Efst : map fst here = slice a_indices lo hi) by (rewrite Fh, <- slice_map_znth by lia; reflexivity).
+        destruct (Z.eqb_spec (zlen (slice a_indices lo hi)) 0) as [Ez|Ez]; cbn [kbind].
+        * change (0 =? 0) with true. cbn iota. exists ks, (here ++ ps).
+          assert (slice a_indices lo hi = []) by (destruct (slice a_indices lo hi); [reflexivity|rewrite zlen_cons in Ez; pose proof (zlen_nonneg l); lia]).
+          repeat split; try assumption. rewrite map_app, Efst, H, E3. reflexivity.
+        * destruct (Z.eqb_spec u 0); [contradiction|]. exists (slice a_indices lo hi ++ ks), (here ++ ps).
+          repeat split; try assumption; [rewrite map_app, Efst, E3; reflexivity|apply Forall_app; split; assumption].
+  Qed.
+
+  Lemma zrange_Forall nn : Forall (fun j => 0 <= j < nn) (zrange nn).
+  Proof. apply Forall_forall. intros x Hx. apply zrange_In in Hx. exact Hx. Qed.
+
+  Lemma cscn_cols_ok m : forall a mask indptr cnt,
+    Z.of_nat (a + m) <= bC -> zlen mask = a_rows -> zlen indptr = bC + 1 ->
+    exists ip total, cscn_cols a_indices a_indptr b bK (rows_from a m) mask indptr cnt = Done (ip, total) /\
+                     cnt <= total /\ zlen ip = bC + 1.
+  Proof.
+    induction m as [|m IH]; intros a mask indptr cnt Ha Lm Lp; cbn [rows_from seq map cscn_cols].
+    - exists indptr, cnt. repeat split; [lia|assumption].
+    - destruct (csc_views_agree (zrange bK) (Z.of_nat a) (zrange_Forall bK) ltac:(lia)) as [ks [ps [-> [_ [_ R]]]]]. cbn [kbind].
+      destruct (mask_count_ok ks (Z.of_nat a) mask cnt) as [m' [c' [-> [L C]]]]; [rewrite Lm; assumption|]. cbn [kbind].
+      rewrite (wr_znth indptr (Z.of_nat a + 1)) by lia. cbn [kbind].
+      destruct (IH (S a) m' (set_nth (Z.to_nat (Z.of_nat a + 1)) indptr c') c' ltac:(lia) ltac:(lia) ltac:(rewrite zlen_set_nth; assumption))
+        as [ip [t [E [Ht Lip]]]].
+      exists ip, t. repeat split; [exact E|lia|assumption].
+  Qed.
+
+  Theorem csc_ndarray_count_nnz_safe_proof :
+    forall indptr, zlen indptr = bC + 1 ->
+    exists ip c, csc_ndarray_count_nnz a_indices a_indptr b a_rows bK bC indptr = Done (ip, c) /\ 0 <= c /\ zlen ip = bC + 1.
+  Proof.
+    intros indptr Lp. unfold csc_ndarray_count_nnz. rewrite zrange_rows.
+    apply cscn_cols_ok; [lia| |assumption]. unfold zlen. rewrite repeat_length. lia.
+  Qed.
+
+  Lemma dcns_cols_ok m : forall a mask indptr cnt ip total nx sums indices data nnz,
+    cscn_cols a_indices a_indptr b bK (rows_from a m) mask indptr cnt = Done (ip, total) ->
+    Z.of_nat (a + m) <= bC -> zlen mask = a_rows -> mask_below a_rows mask (Z.of_nat a) -> zlen indptr = bC + 1 ->
+    zlen nx = a_rows -> (forall x, 0 <= x < a_rows -> znth nx x = -1) -> zlen sums = a_rows -> zlen data = zlen indices ->
+    0 <= nnz -> nnz + (total - cnt) <= zlen indices ->
+    exists r, dcns_cols a_indices a_data a_indptr b bK (rows_from a m) nx sums indices data nnz = Done r.
+  Proof.
+    induction m as [|m IH]; intros a mask indptr cnt ip total nx sums indices data nnz Hc Ha Lm Hbel Lp Ln Hclean Ls Ld Hn Hbound;
+      cbn [rows_from seq map dcns_cols cscn_cols] in *.
+    - eexists; reflexivity.
+    - set (i := Z.of_nat a) in *.
+      destruct (csc_views_agree (zrange bK) i (zrange_Forall bK) ltac:(lia)) as [ks [ps [Ek [-> [Efst R]]]]].
+      rewrite Ek in Hc. cbn [kbind] in *.
+      assert (Hrange : Forall (fun p : Z * Z => 0 <= fst p < a_rows) ps).
+      { apply Forall_forall. intros p Hp. rewrite Forall_forall in R. apply R. rewrite <- Efst. apply in_map. assumption. }
+      assert (Linv : ll_inv a_rows i mask nx (-2) []).
+      { unfold ll_inv. split; [assumption|]. split; [assumption|]. split; [constructor|]. split; [constructor|].
+        split; [|split; [|reflexivity]].
+        - intros x Hx. rewrite (Hclean x Hx). cbn. tauto.
+        - intros x Hx. specialize (Hbel x Hx). cbn. split; [lia|tauto]. }
+      destruct (lockstep a_rows i ps mask nx sums (-2) [] cnt 0 Hrange Linv Ls ltac:(lia))
+        as [m' [c' [nx1 [s1 [h1 [l1 [E1 [E2 [I1 [Ls1 [_ [Ll [Hcc Hmk]]]]]]]]]]]]].
+      rewrite Efst in E1. rewrite E1 in Hc. cbn [kbind] in Hc. rewrite E2. cbn [kbind].
+      destruct I1 as [Lm1 [Ln1 [Nd1 [Rg1 [Hnx1 [Hmk1 Hch1]]]]]].
+      rewrite (wr_znth indptr (i + 1)) in Hc by lia. cbn [kbind] in Hc.
+      destruct (cscn_cols_ok m (S a) m' (set_nth (Z.to_nat (i + 1)) indptr c') c' ltac:(lia) Lm1 ltac:(rewrite zlen_set_nth; assumption))
+        as [ip' [t' [Et [Htc _]]]].
+      assert (t' = total) by (unfold rows_from in Et; congruence). subst t'.
+      replace (0 + (c' - cnt)) with (zlen l1) by (unfold zlen in *; cbn [length] in Ll; lia).
+      unfold zlen at 1. rewrite Nat2Z.id.
+      destruct (drain_ok a_rows false l1 h1 nx1 s1 indices data nnz Hch1 Nd1 Rg1) as [nx2 [s2 [i2 [d2 [-> [Ln2 [Ls2 [Li2 [Ld2 Hv]]]]]]]]];
+        try assumption; try lia.
+      { intros x Hx. apply Hnx1; [|assumption]. rewrite Forall_forall in Rg1. apply Rg1. assumption. }
+      { unfold zlen in *. cbn [length] in Ll. lia. }
+      cbn [kbind].
+      pose proof (sort_segment_length i2 d2 nnz (nnz + zlen l1) ltac:(lia)) as [S1 S2].
+      destruct (sort_segment i2 d2 nnz (nnz + zlen l1)) as [i3 d3]. cbn [fst snd] in S1, S2.
+      pose proof (zlen_nonneg l1).
+      apply (IH (S a) m' (set_nth (Z.to_nat (i + 1)) indptr c') c' ip total); try assumption; try lia.
+      + intros x Hx. destruct (Hmk x Hx) as [H1|H1]; [lia|]. specialize (Hbel x Hx). lia.
+      + rewrite zlen_set_nth. assumption.
+      + intros x Hx. rewrite (Hv x Hx). destruct (in_dec Z.eq_dec x l1) as [Hi|Hi]; [reflexivity|].
+        destruct (Z.eq_dec (znth nx1 x) (-1)); [assumption|]. exfalso. apply Hi. apply Hnx1; assumption.
+      + unfold zlen in *. cbn [length] in Ll. lia.
+  Qed.
+
+  Theorem dot_csc_ndarray_sparse_safe_proof :
+    exists r, dot_csc_ndarray_sparse a_indices a_data a_indptr b a_rows bK bC = Done r.
+  Proof.
+    unfold dot_csc_ndarray_sparse, csc_ndarray_count_nnz. rewrite !zrange_rows.
+    assert (Lp : zlen (repeat 0 (Z.to_nat (bC + 1))) = bC + 1) by (unfold zlen; rewrite repeat_length; lia).
+    assert (Lm : zlen (repeat (-1) (Z.to_nat a_rows)) = a_rows) by (unfold zlen; rewrite repeat_length; lia).
+    destruct (cscn_cols_ok (Z.to_nat bC) 0 (repeat (-1) (Z.to_nat a_rows)) (repeat 0 (Z.to_nat (bC + 1))) 0 ltac:(lia) Lm Lp)
+      as [ip [cnt [Ec [Hc Lip]]]].
+    rewrite Ec. cbn [kbind]. rewrite (wr_znth ip 0) by lia. cbn [kbind].
+    destruct (dcns_cols_ok (Z.to_nat bC) 0 (repeat (-1) (Z.to_nat a_rows)) (repeat 0 (Z.to_nat (bC + 1))) 0 ip cnt
+                (repeat (-1) (Z.to_nat a_rows)) (repeat 0 (Z.to_nat a_rows)) (repeat 0 (Z.to_nat cnt)) (repeat 0 (Z.to_nat cnt)) 0 Ec)
+      as [[d i'] ->]; try assumption; try lia; try (unfold zlen; rewrite ?repeat_length; lia).
+    - intros x Hx. rewrite znth_repeat by lia. cbn. lia.
+    - intros x Hx. apply znth_repeat. lia.
+    - cbn [kbind]. eexists; reflexivity.
+  Qed.
+End CscNdarrayP.
+
+(* ================================================================= _compressed/convert.py kernels *)
+Lemma uncompress_rows_ok is : forall indptr out,
+  Forall (fun i => 0 <= i /\ i + 1 < zlen indptr) is -> exists r, uncompress_rows is indptr out = Done r.
+Proof.
+  induction is as [|i is IH]; intros indptr out H; cbn [uncompress_rows]; [eexists; reflexivity|].
+  pose proof (Forall_inv H) as [H0 H1]. pose proof (Forall_inv_tail H) as H'.
+  rewrite (rd_znth indptr i) by lia. cbn [kbind]. rewrite (rd_znth indptr (i + 1)) by lia. cbn [kbind].
+  apply IH. assumption.
+Qed.
+
+Theorem uncompress_dimension_safe_proof :
+  forall indptr, indptr <> [] -> 0 <= znth indptr (zlen indptr - 1) ->
+  exists r, uncompress_dimension indptr = Done r.
+Proof.
+  intros indptr Hne Hlast. unfold uncompress_dimension.
+  assert (0 < zlen indptr) by (destruct indptr; [congruence|rewrite zlen_cons; pose proof (zlen_nonneg indptr); lia]).
+  rewrite (rd_last_znth indptr) by lia. cbn [kbind].
+  destruct (Z.ltb_spec (znth indptr (zlen indptr - 1)) 0); [lia|].
+  apply uncompress_rows_ok. apply Forall_forall. intros x Hx. apply zrange_In in Hx. lia.
+Qed.
+
+Lemma zprod_pos l : Forall (fun d => 0 < d) l -> 0 < zprod l.
+Proof. induction 1; cbn; [lia|]. apply Z.mul_pos_pos; assumption. Qed.
+
+Lemma Forall_skipn {A} (P : A -> Prop) n l : Forall P l -> Forall P (skipn n l).
+Proof. intros H. apply Forall_forall. intros x Hx. rewrite Forall_forall in H. apply H. eapply In_skipn; eassumption. Qed.
+
+Lemma skipn_add {A} (a b : nat) (l : list A) : skipn a (skipn b l) = skipn (a + b) l.
+Proof.
+  revert l; induction b as [|b IH]; intros l; [rewrite Nat.add_0_r; reflexivity|].
+  destruct l as [|x l]; [destruct a; reflexivity|]. rewrite Nat.add_succ_r. cbn [skipn]. apply IH.
+Qed.
+
+Lemma tail_pos_prod shape t :
+  Forall (fun d => 0 < d) (skipn 1 shape) -> 1 <= t -> zprod (skipn (Z.to_nat t) shape) <> 0.
+Proof.
+  intros H Ht. replace (Z.to_nat t) with (Z.to_nat (t - 1) + 1)%nat by lia. rewrite <- skipn_add.
+  pose proof (zprod_pos _ (Forall_skipn _ (Z.to_nat (t - 1)) _ H)). lia.
+Qed.
+
+Lemma unravel_loop_ok fuel : forall i n shape out,
+  1 <= i -> zlen out = zlen shape -> 0 < zlen shape -> Forall (fun d => 0 < d) (skipn 1 shape) ->
+  Z.max 0 (zlen shape - i) < Z.of_nat fuel ->
+  exists o, unravel_loop fuel i n shape out = Done o /\ zlen o = zlen shape.
+Proof.
+  induction fuel as [|f IH]; intros i n shape out Hi Lo Hs Hp Hf; [lia|]. cbn [unravel_loop].
+  destruct (Z.ltb_spec i (zlen shape)) as [H1|H1]; cbn [andb].
+  - destruct (Z.ltb_spec 0 n) as [H2|H2].
+    + destruct (Z.eqb_spec (zprod (skipn (Z.to_nat i) shape)) 0) as [E|E]; [exfalso; exact (tail_pos_prod shape i Hp Hi E)|].
+      rewrite (wr_znth out (i - 1)) by lia. cbn [kbind]. apply IH; try assumption; try lia. rewrite zlen_set_nth. assumption.
+    + destruct (wr_last_ok out n ltac:(lia)) as [o [-> L]]. exists o. split; [reflexivity|]. unfold zlen in *. lia.
+  - destruct (wr_last_ok out n ltac:(lia)) as [o [-> L]]. exists o. split; [reflexivity|]. unfold zlen in *. lia.
+Qed.
+
+Theorem unravel_index_safe_proof :
+  forall (F : nat) (n : Z) (shape : list Z),
+    shape <> [] -> Forall (fun d => 0 < d) (skipn 1 shape) -> zlen shape <= Z.of_nat F ->
+    exists o, unravel_index F n shape = Done o /\ zlen o = zlen shape.
+Proof.
+  intros F n shape Hne Hp HF. unfold unravel_index.
+  assert (0 < zlen shape) by (destruct shape; [congruence|rewrite zlen_cons; pose proof (zlen_nonneg shape); lia]).
+  apply unravel_loop_ok; try assumption; try lia. unfold zlen. rewrite repeat_length. reflexivity.
+Qed.
+
+Lemma gather_ok a idx : Forall (fun k => 0 <= k < zlen a) idx -> exists r, gather a idx = Done r /\ zlen r = zlen idx.
+Proof.
+  induction 1 as [|k idx Hk Hi IH]; cbn [gather]; [exists []; split; reflexivity|].
+  rewrite (rd_znth a k Hk). cbn [kbind]. destruct IH as [r [-> L]]. cbn [kbind].
+  exists (znth a k :: r). split; [reflexivity|]. rewrite !zlen_cons, L. reflexivity.
+Qed.
+
+Lemma linearize_loop_ok F xs : forall i shape order rshape cshape lin c0 c1,
+  shape <> [] -> Forall (fun d => 0 < d) (skipn 1 shape) -> zlen shape <= Z.of_nat F ->
+  order <> [] -> Forall (fun k => 0 <= k < zlen shape) order ->
+  zlen cshape = 2 -> Forall (fun d => 0 < d) (skipn 1 cshape) -> 2 <= Z.of_nat F ->
+  0 <= i -> zlen lin = i + zlen xs -> zlen c0 = i + zlen xs -> zlen c1 = i + zlen xs ->
+  exists r, linearize_loop F xs i shape order rshape cshape lin c0 c1 = Done r.
+Proof.
+  induction xs as [|n xs IH]; intros i shape order rshape cshape lin c0 c1 Hs Hp HF Ho Hor Hc Hcp HF2 Hi L0 L1 L2;
+    cbn [linearize_loop]; [eexists; reflexivity|].
+  rewrite zlen_cons in *. pose proof (zlen_nonneg xs).
+  destruct (unravel_index_safe_proof F n shape Hs Hp HF) as [cur [-> Lc]]. cbn [kbind].
+  destruct (gather_ok cur order) as [ct [-> Lt]]; [rewrite Lc; assumption|]. cbn [kbind].
+  assert (0 < zlen order) by (destruct order; [congruence|rewrite zlen_cons; pose proof (zlen_nonneg order); lia]).
+  unfold ravel_multi_index. rewrite (rd_last_znth ct) by lia. cbn [kbind].
+  rewrite (wr_znth lin i) by lia. cbn [kbind].
+  assert (Hcs : cshape <> []) by (intros ->; unfold zlen in Hc; cbn in Hc; lia).
+  destruct (unravel_index_safe_proof F (ravel_loop (removelast ct) 1 rshape 0 + znth ct (zlen ct - 1)) cshape Hcs Hcp ltac:(lia))
+    as [col [-> Lcol]]. cbn [kbind].
+  rewrite Lcol, Hc. change (2 =? 2) with true. cbn [negb].
+  rewrite (rd_znth col 0) by lia. cbn [kbind]. rewrite (rd_znth col 1) by lia. cbn [kbind].
+  rewrite (wr_znth c0 i) by lia. cbn [kbind]. rewrite (wr_znth c1 i) by lia. cbn [kbind].
+  apply IH; try assumption; try lia; rewrite zlen_set_nth; lia.
+Qed.
+
+Theorem linearize_safe_proof :
+  forall (F : nat) (x_indices shape order rshape cshape : list Z),
+    shape <> [] -> Forall (fun d => 0 < d) (skipn 1 shape) ->
+    order <> [] -> Forall (fun k => 0 <= k < zlen shape) order ->
+    zlen cshape = 2 -> Forall (fun d => 0 < d) (skipn 1 cshape) ->
+    Z.of_nat F = Z.max 2 (zlen shape) ->
+    exists r, linearize F x_indices shape order rshape cshape = Done r.
+Proof.
+  intros F xs shape order rshape cshape Hs Hp Ho Hor Hc Hcp HF. unfold linearize.
+  apply linearize_loop_ok; try assumption; try lia; unfold zlen; rewrite repeat_length; lia.
+Qed.
+
+Example gcxs_kernels_example :
+  (* [[1,2],[0,3]] @ [[0,4],[5,0]] in CSR *)
+  dot_csr_csr [0; 1; 1] [1; 2; 3] [0; 2; 3] [1; 0] [4; 5] [0; 1; 2] 2 2 = Done ([10; 4; 15], [0; 1; 0], [0; 2; 3]) /\
+  csr_csr_count_nnz [0; 1; 1] [0; 2; 3] [1; 0] [0; 1; 2] 2 2 = Done 3 /\
+  uncompress_dimension [0; 2; 2; 3] = Done [0; 0; 2] /\
+  unravel_index 3 17 [2; 3; 4] = Done [1; 1; 1] /\
+  linearize 3 [5; 7] [2; 2; 2] [2; 0; 1] [2; 2; 2] [2; 4] = Done ([6; 7], [1; 1], [2; 3]).
+Proof. repeat split; reflexivity. Qed.
